@@ -8,6 +8,9 @@ advertised step), and the boundary flags of DESIGN 2.5 (signed distance of start
 computed exactly on the doubles actually passed, from the nearest integer, in units of 2^-30 relative).
 After the last call of a resamp / spec case the binder looks again at every array produced earlier in the case (the loaded
 source; in derived-twice cases also the result of the preliminary resample) and encodes its time axis the same way ("reobs").
+Clip / recording cases with a history (hist = mutate | rewrite | rewrite_len) use a file of their own: load, then edit the
+returned arrays in place or rewrite the file at the same path (N2 frames, values from base2), then load again; the SECOND load
+is what is encoded.
 It computes no expected value and takes no decision.
 """
 from __future__ import annotations
@@ -33,7 +36,8 @@ POOL = 12
 CHUNK = 1500
 RULE = ("every call of the TLA+ enumeration (all clips [s,e] on the quarter-sample lattice incl. past EOF x file shapes x "
         "samplerate/time-expansion settings; all window/hop pairs x sources; sources x target rates; derived-twice sequences "
-        "resample-then-resample / resample-then-spectrogram on one loaded array, the source re-observed after the calls) plus "
+        "resample-then-resample / resample-then-spectrogram on one loaded array, the source re-observed after the calls; every "
+        "11th (thorough: 5th) clip and every recording also as load / edit-in-place or rewrite-file / load-again) plus "
         "random calls on larger universes; non-trivial = an array with at least two coordinates was produced (clip: at least one frame)")
 TRUSTED_BASE = ["checks/c15.py (writes the WAV, builds Recording/Clip, calls the API, encodes rows/coordinates as exact limb numbers, "
                 "boundary-distance flags by fractions.Fraction on the doubles passed)",
@@ -134,19 +138,52 @@ def _wavdir() -> Path:
     return d
 
 
+def _write(path, fr, ch, n, fmt, base=0):
+    vals = base + np.arange(1, n * ch + 1, dtype=np.int64).reshape(n, ch)   # frame k, channel j (1-based): base + k*ch + j
+    if fmt == "PCM_16":
+        sf.write(str(path), vals.astype(np.int16), fr, subtype="PCM_16", format="WAV")
+    else:
+        sf.write(str(path), (vals / 32768.0).astype(np.float32), fr, subtype="FLOAT", format="WAV")
+
+
 def _wav(case) -> Path:
     fr, ch, n = case["fr"], case["ch"], case["N"]
     fmt = case.get("fmt", "PCM_16")
     p = _wavdir() / f"f_{fr}_{ch}_{n}_{fmt}.wav"
     if not p.exists():
-        vals = np.arange(1, n * ch + 1, dtype=np.int64).reshape(n, ch)      # frame k, channel j (1-based): k*ch + j
         tmp = p.with_name(p.name + f".{os.getpid()}.tmp")
-        if fmt == "PCM_16":
-            sf.write(str(tmp), vals.astype(np.int16), fr, subtype="PCM_16", format="WAV")
-        else:
-            sf.write(str(tmp), (vals / 32768.0).astype(np.float32), fr, subtype="FLOAT", format="WAV")
+        _write(tmp, fr, ch, n, fmt)
         os.replace(tmp, p)
     return p
+
+
+_HIST_SEQ = [0]
+
+
+def _history(case, out):
+    """Cases with a history get a file of their own: first load(s), then the in-place edit of the returned arrays or
+    the rewrite of the file at the same path; returns the Recording (rebuilt from the file) for the second, observed load."""
+    _HIST_SEQ[0] += 1
+    p = _wavdir() / f"h_{os.getpid()}_{_HIST_SEQ[0]}.wav"
+    fr, ch, fmt, te = case["fr"], case["ch"], case.get("fmt", "PCM_16"), case["te"][0] / case["te"][1]
+    _write(p, fr, ch, case["N"], fmt)
+    keep = []                                   # the first results stay alive during the second load
+    try:
+        rec1 = data.Recording.from_file(p, time_expansion=te, compute_hash=False)
+        keep.append(load_recording(rec1))
+        if case["kind"] == "clip":
+            keep.append(load_clip(_clip(case, rec1)))
+    except Exception as ex:
+        out["hist_raised"] = "first:" + type(ex).__name__
+    if case["hist"] == "mutate":
+        for a in keep:
+            try:
+                np.add(a.data, 3 / 32768, out=a.data)          # the caller edits what it was given, in place
+            except Exception as ex:                              # (a read-only result cannot be edited: nothing to do)
+                out["hist_raised"] = "edit:" + type(ex).__name__
+    else:
+        _write(p, fr, ch, case["N2"], fmt, base=case["base2"])   # same path, other content
+    return p, data.Recording.from_file(p, time_expansion=te, compute_hash=False), keep
 
 
 _RECS: dict = {}
@@ -167,7 +204,7 @@ def _clip(case, rec):
 
 def _blank():
     return {"raised": "", "n": 0, "rows": [], "rec_rows": [], "bs": 0, "bd": 0, "src_ok": True, "src_n": 0, "axes": [],
-            "pre_raised": "", "reobs": []}
+            "pre_raised": "", "reobs": [], "hist_raised": ""}
 
 
 def _flags(out, clip, sr):
@@ -179,7 +216,20 @@ def _flags(out, clip, sr):
 def execute(case):
     warnings.simplefilter("ignore")
     out = _blank()
-    rec = _recording(case)
+    if case.get("hist", "none") != "none":
+        path, rec, keep = _history(case, out)
+        try:
+            return _observe(case, rec, out)
+        finally:
+            del keep
+            try:
+                os.unlink(path)
+            except OSError:
+                pass
+    return _observe(case, _recording(case), out)
+
+
+def _observe(case, rec, out):
     sr = rec.samplerate
     kind = case["kind"]
 
@@ -257,9 +307,22 @@ def execute(case):
 
 
 # ----------------------------------------------------------------------------- larger universes (random, seeded)
-def _case(kind, fr, te, tden, ch, n, s=0, e=0, src="clip", w=0, h=0, target=0, fmt="PCM_16", pre=0):
+def _case(kind, fr, te, tden, ch, n, s=0, e=0, src="clip", w=0, h=0, target=0, fmt="PCM_16", pre=0, hist="none", n2=None, base2=0):
     return {"kind": kind, "fr": fr, "te": list(te), "tden": tden, "ch": ch, "N": n, "s": s, "e": e,
-            "src": src, "w": w, "h": h, "target": target, "pre": pre, "fmt": fmt}
+            "src": src, "w": w, "h": h, "target": target, "pre": pre, "hist": hist, "N2": n if n2 is None else n2,
+            "base2": base2, "fmt": fmt}
+
+
+def _hist(rng, n):
+    """History of a random clip / recording case: (hist, N2, base2)."""
+    r = rng.random()
+    if r < 0.7:
+        return "none", n, 0
+    if r < 0.8:
+        return "mutate", n, 0
+    if r < 0.9:
+        return "rewrite", n, rng.choice([100, 1000, 7])
+    return "rewrite_len", max(1, n + rng.choice([-3, -1, 1, 2, 5, n])), rng.choice([100, 1000])
 
 
 def _pre(rng, sr, n):
@@ -289,8 +352,10 @@ def random_cases(rng, tier):
     n_clip, n_spec, n_res, n_rec = (700, 150, 120, 40) if tier == "quick" else (6000, 1200, 900, 300)
     for _ in range(n_rec):
         fr, te = rng.choice(_RATES)
-        yield _case("rec", fr, te, 4 * (fr * te[0] // te[1]), rng.choice([1, 2, 3]), rng.choice([1, 2, rng.randrange(3, 400)]),
-                    src="rec", fmt=rng.choice(["PCM_16", "FLOAT"]))
+        n = rng.choice([1, 2, rng.randrange(3, 400)])
+        hist, n2, base2 = _hist(rng, n)
+        yield _case("rec", fr, te, 4 * (fr * te[0] // te[1]), rng.choice([1, 2, 3]), n,
+                    src="rec", fmt=rng.choice(["PCM_16", "FLOAT"]), hist=hist, n2=n2, base2=base2)
     for _ in range(n_clip):
         fr, te = rng.choice(_RATES)
         sr = fr * te[0] // te[1]
@@ -310,7 +375,8 @@ def random_cases(rng, tier):
             e = min(top, s + rng.randrange(0, 2 * tden // sr + 2))
         else:
             s, e = sorted((rng.randrange(0, top + 1), rng.randrange(0, top + 1)))
-        yield _case("clip", fr, te, tden, ch, n, s, e, fmt=rng.choice(["PCM_16", "PCM_16", "FLOAT"]))
+        hist, n2, base2 = _hist(rng, n)
+        yield _case("clip", fr, te, tden, ch, n, s, e, fmt=rng.choice(["PCM_16", "PCM_16", "FLOAT"]), hist=hist, n2=n2, base2=base2)
     for _ in range(n_spec):
         fr, te = rng.choice(_RATES)
         sr = fr * te[0] // te[1]
@@ -379,7 +445,10 @@ MANIFEST = {
              "exact limb numbers; TLC validates every observation clause by clause (exact on dyadic units, boundary guard and 2.4e-10 "
              "sample tolerance on stress units), plus random calls on larger universes. After resample / compute_spectrogram the source "
              "array (and, in derived-twice sequences on one loaded array, the first result) is re-observed and must still satisfy the "
-             "axis clauses (SourceUntouched/*; Impl action Reobserve, invariant ImplSourceTruthful)."),
+             "axis clauses (SourceUntouched/*, FirstResult/*; Impl action Reobserve, invariant ImplSourceTruthful). Clips and recordings "
+             "are also loaded twice with an in-place edit of the first result or a rewrite of the file (other values, other length) in "
+             "between; the second load is judged by the same clauses against the file as it then is (Impl: Between/Reload keeps no "
+             "state; the caching variant's counterexample is kept in spec/history)."),
     "note": ("trusted: TLC, the binder checks/c15.py (encoder + exact Fraction reductions), soundfile's write path; bounded-exhaustive "
              "lattice + seeded random sampling; numerical values of resampled audio / STFT are not judged; resample's output length is "
              "not pinned by the statement and not judged"),
